@@ -236,29 +236,61 @@ pub fn run_child(spec: &crate::Spec) -> Report {
                     }
                 }
             }
-            // very long metrics into every buffered sink: an I/O error is fine, a panic is not
-            for big in [65507usize, 65508, 70000, 200_000] {
+            // very long metrics into every socket sink: an I/O error is fine, a panic is not. Contents:
+            // ASCII, and 2-, 3- and 4-byte characters after 0..3 ASCII bytes, so that every byte offset
+            // falls inside a character for some content (code that cuts a metric at a byte index)
+            let contents = |big: usize| -> Vec<String> {
+                let mut v = vec!["k".repeat(big)];
+                for ch in ["é", "€", "😀"] {
+                    for lead in 0..4usize {
+                        let mut m = "k".repeat(lead);
+                        while m.len() + ch.len() <= big {
+                            m.push_str(ch);
+                        }
+                        while m.len() < big {
+                            m.push('z');
+                        }
+                        v.push(m);
+                    }
+                }
+                v
+            };
+            for big in [65507usize, 65508, 65527, 65528, 70000, 200_000] {
                 for cap in [0usize, 8, 512, 100_000] {
-                    for which in ["spy", "udp", "unix"] {
-                        let name = format!("buffers sink={} cap={} metric of {} bytes", which, cap, big);
+                    for which in ["spy", "udp", "unix", "udp-unbuffered", "unix-unbuffered", "udp6-unbuffered"] {
+                        if which.ends_with("unbuffered") && cap != 0 {
+                            continue;
+                        }
+                        let name = format!("buffers sink={} cap={} metrics of {} bytes, ASCII and multi-byte contents", which, cap, big);
                         guarded(&mut rep, &name, |_| {
                             let rx = crate::sock::Rx::unix("sweepbig");
                             let udp_rx = crate::sock::Rx::udp(false).unwrap();
+                            let udp6_rx = crate::sock::Rx::udp(true);
                             let sink: Box<dyn MetricSink> = match which {
                                 "spy" => Box::new(BufferedSpyMetricSink::with_capacity(None, Some(cap)).1),
                                 "udp" => Box::new(BufferedUdpMetricSink::with_capacity(udp_rx.addr(), UdpSocket::bind("127.0.0.1:0").unwrap(), cap).unwrap()),
-                                _ => Box::new(BufferedUnixMetricSink::with_capacity(rx.path(), UnixDatagram::unbound().unwrap(), cap)),
+                                "unix" => Box::new(BufferedUnixMetricSink::with_capacity(rx.path(), UnixDatagram::unbound().unwrap(), cap)),
+                                "udp-unbuffered" => Box::new(UdpMetricSink::from(udp_rx.addr(), UdpSocket::bind("127.0.0.1:0").unwrap()).unwrap()),
+                                "udp6-unbuffered" => match &udp6_rx {
+                                    Some(r6) => Box::new(UdpMetricSink::from(r6.addr(), UdpSocket::bind("[::1]:0").unwrap()).unwrap()),
+                                    None => return,
+                                },
+                                _ => Box::new(UnixMetricSink::from(rx.path(), UnixDatagram::unbound().unwrap())),
                             };
-                            let m = "k".repeat(big);
-                            let _ = sink.emit("a:1|c");
-                            let _ = sink.emit(&m);
-                            let _ = sink.emit("b:1|c");
-                            let _ = sink.flush();
-                            let _ = sink.emit(&m);
-                            let _ = sink.flush();
+                            for m in contents(big) {
+                                let _ = sink.emit("a:1|c");
+                                let _ = sink.emit(&m);
+                                let _ = sink.emit("b:1|c");
+                                let _ = sink.flush();
+                                let _ = sink.emit(&m);
+                                let _ = sink.flush();
+                                let _ = rx.discard_all();
+                                let _ = udp_rx.discard_all();
+                                if let Some(r6) = &udp6_rx {
+                                    let _ = r6.discard_all();
+                                }
+                            }
                             drop(sink);
-                            let _ = rx.discard_all();
-                            let _ = udp_rx.discard_all();
                         });
                     }
                 }
